@@ -222,7 +222,41 @@ def shape (v : Array String) : String :=
       let o := circleRun S (rz == 1) depth s
       (fTrace o.result o.trace, o.st)
 
+def readOps : Nat → Nat → Cur → List Op × Cur
+  | 0, _, c => ([], c)
+  | n + 1, j, c =>
+    let (t, c) := c.tok
+    if t == "t" then
+      let (a, c) := c.nat
+      let (b, c) := c.nat
+      let (d, c) := c.nat
+      let (r, c) := readOps n j c
+      (.tri a b d :: r, c)
+    else if t == "v" then
+      let (r, c) := readOps n (j + 1) c
+      (.vertex j :: r, c)
+    else
+      let (r, c) := readOps n j c
+      ((if t == "b" then Op.begin else if t == "e" then Op.endG else Op.abort) :: r, c)
+
+/-- arbitrary call sequences against `BuffersBuilder` / `InvertWinding` / `NoOutput` -/
+def bb (v : Array String) : String :=
+  let (sp, c) := readSink ⟨v, 0⟩
+  let (_, c) := c.tok
+  let (n, c) := c.nat
+  let (ops, _) := readOps n 0 c
+  match cfgOf sp.ty with
+  | some cfg =>
+    let b := (BB.new (initBuffers sp sp.initNv) cfg).withVertexOffset sp.off
+    let S : Sink BB := if sp.inv then bbSink.invert else bbSink
+    let (fin, calls) := S.exec ops b
+    unwords (["max", toString cfg.max, "trace"] ++ calls.map fCall ++ [fBuffers fin.buf])
+  | none =>
+    let (_, calls) := noOutSink.exec ops ⟨0⟩
+    unwords (["max", "4294967295", "trace"] ++ calls.map fCall ++ ["nobuf"])
+
 def families : List Family := [
+  Family.plain "bb" bb,
   Family.plain "fill" fill,
   Family.plain "stroke" stroke,
   Family.plain "shape" shape ]
